@@ -65,6 +65,8 @@ def gen_inline(t):
     tu = TU('c12i_' + t)
     tu.add('w_gs44', 'bool& r, %s& m, Vec3<%s>& s, Vec3<%s>& h' % (M4, E, E), 'r = extractAndRemoveScalingAndShear(m, s, h, false);', d=4)
     tu.add('w_gs33', 'bool& r, %s& m, Vec2<%s>& s, %s& h' % (M3, E, E), 'r = extractAndRemoveScalingAndShear(m, s, h, false);', d=3)
+    tu.add('w_czs3', 'bool& r, const %s& s, const Vec3<%s>& row' % (E, E), 'r = checkForZeroScaleInRow(s, row, false);', d=0, n=3)
+    tu.add('w_czs2', 'bool& r, const %s& s, const Vec2<%s>& row' % (E, E), 'r = checkForZeroScaleInRow(s, row, false);', d=0, n=2)
     return tu
 
 def gen_jacobi(t):
@@ -713,6 +715,50 @@ def main(rep, ws, tier):
             S = Ri.get(name)
             if S is None:
                 rep.ob(oid, 'R12.zero', UNDECIDED, Ri.err.get(name, '')); continue
+            if m['d'] == 0:
+                # the predicate itself, evaluated exactly at the deciding points: a zero scale is reported whatever the row is (the row
+                # of an exactly zero scale is the zero row: 0 >= max * 0 must count), a unit scale with unit entries is accepted, and a
+                # scale so small that row / scale overflows is reported
+                n_ = m['n']; oid = 'checkForZeroScaleInRow(Vec%d<%s>)' % (n_, E)
+                o = S.out('a0', 0, 1, 'i8')
+                class _No(Exception): pass
+                def ev(x, env):
+                    if x.op == 'in': return env[x]
+                    if x.op == 'const':
+                        v = T.const_value(x)
+                        if isinstance(v, str): raise _No()
+                        return v
+                    if x is T.TRUE: return True
+                    if x is T.FALSE: return False
+                    if x.op == 'absi' or (x.op == 'call' and 'fabs' in str(x.attr)): return abs(ev(x.args[0], env))
+                    if x.op == 'fneg': return -ev(x.args[0], env)
+                    if x.op == 'fmul': return ev(x.args[0], env) * ev(x.args[1], env)
+                    if x.op == 'ite': return ev(x.args[1], env) if ev(x.args[0], env) else ev(x.args[2], env)
+                    if x.op == 'not': return not ev(x.args[0], env)
+                    if x.op == 'fcmp':
+                        p_, q_ = ev(x.args[0], env), ev(x.args[1], env)
+                        return {'olt': p_ < q_, 'ole': p_ <= q_, 'ogt': p_ > q_, 'oge': p_ >= q_, 'oeq': p_ == q_, 'one': p_ != q_, 'une': p_ != q_}[x.attr]
+                    raise _No()
+                sc = agg.scalar_in('a1', t); rw = [agg.slot_in('a2', i, t) for i in range(n_)]
+                big = Fraction(2) ** (100 if lt == 'float' else 1000)
+                pts = [((0,) + (0,) * n_, False, 'a zero scale with the zero row'), ((0,) + (1,) * n_, False, 'a zero scale'),
+                       ((1,) + (1,) * n_, True, 'unit scale, unit row'), ((Fraction(1, 2),) + (3,) * n_, True, 'scale 1/2'),
+                       ((1 / big / big,) + (big,) * n_, False, 'a scale so small that row / scale overflows')]
+                for k_ in range(n_):
+                    v_ = [0] * n_; v_[k_] = 1
+                    pts.append(((1 / big / big,) + tuple(big * x_ for x_ in v_), False, 'overflow in component %d only' % k_))
+                bad = None
+                try:
+                    for vals, want, what in pts:
+                        env = {sc: Fraction(vals[0])}
+                        env.update({rw[i]: Fraction(vals[1 + i]) for i in range(n_)})
+                        got = bool(ev(o, env) & 1) if not isinstance(ev(o, env), bool) else ev(o, env)
+                        if got != want:
+                            bad = '%s is %s: checkForZeroScaleInRow(%s, (%s)) returns %s' % (what, 'accepted' if got else 'rejected', float(vals[0]), ', '.join('%g' % float(v) for v in vals[1:]), got); break
+                    rep.ob(oid, 'R12.zero', VIOLATED if bad else HOLDS, bad or 'zero scale rejected for every row (the zero row included), overflowing quotient rejected in each component, ordinary scales accepted (%d exact evaluations)' % len(pts), fn_where(S.fn))
+                except _No:
+                    rep.ob(oid, 'R12.zero', UNDECIDED, 'the predicate is not a comparison of |row_i| with max * |scale|', fn_where(S.fn))
+                continue
             try:
                 d = m['d']; ns = 3 if d == 4 else 2; nh = 3 if d == 4 else 1
                 outs_ = [S.out('a0', 0, 1, 'i8')] + [S.out('a1', i * sz, sz, lt) for i in range(d * d)] + [S.out('a2', i * sz, sz, lt) for i in range(ns)] + [S.out('a3', i * sz, sz, lt) for i in range(nh)]
@@ -739,6 +785,7 @@ def main(rep, ws, tier):
                 rep.ob(oid, 'R12.zero', UNDECIDED, repr(e)[:300], fn_where(S.fn))
         # Gram-Schmidt identity
         for name, m in ti.meta.items():
+            if m['d'] == 0: continue
             if m['d'] == 4 and os.environ.get('VERIF_C12_GS44') != '1':
                 continue
             oid = '%s<%s>' % (name[2:], E)
